@@ -108,6 +108,52 @@ class ConsumerClient(Client):
                 out.append([k, r.randrange(1, 1000)])
         return out
 
+    def call_order_session(self, sid):
+        """Every access path of a consumer before and after a reconfiguration,
+        in a scrambled order: a cache refreshed through one path must not leave
+        another path stale."""
+        r, w = self.rng, self.w
+        s_ = w.pool[self.kind][sid]
+        try:
+            n = s_.circuit.input_modes
+        except Exception:  # noqa: BLE001
+            return None
+        if n < 1:
+            return None
+        heralded = bool(s_.circuit.heralds["output"])
+
+        def paths():
+            one = {"op": "sample", "kind": self.kind, "s": sid,
+                   "stream": r.randrange(1 << 30)}
+            if self.kind == "sam" and heralded:
+                # Sampler.sample() under heralds is known finding K4: a hit
+                # ends the run, so it is kept rare
+                one = {"op": "sample_n_inputs", "s": sid, "n": 20,
+                       "seed": self.seed()}
+            many = ({"op": "quick_n_outputs", "s": sid, "n": 50,
+                     "seed": self.seed()} if self.kind == "qs" else
+                    {"op": r.choice(["sample_n_inputs", "sample_n_outputs"]),
+                     "s": sid, "n": 50, "seed": self.seed()})
+            rd = {"op": "read_dist", "kind": self.kind, "s": sid}
+            ps = [one, rd, many, dict(one, stream=r.randrange(1 << 30))]
+            r.shuffle(ps)
+            return ps + [dict(one, stream=r.randrange(1 << 30))]
+        st = [0] * n
+        for _ in range(r.randint(1, 2)):
+            st[r.randrange(n)] += 1
+        q = paths()
+        if self.kind == "qs" and r.random() < 0.5:
+            q.append({"op": "cons_set", "kind": "qs", "s": sid,
+                      "attr": "photon_counting",
+                      "value": not s_.photon_counting})
+        else:
+            q.append({"op": "cons_set", "kind": self.kind, "s": sid,
+                      "attr": "input_state", "value": st})
+        q += paths()
+        self.queue = q
+        w.stats["intent:call_order_session"] += 1
+        return self.queued()
+
     def detector_toggle(self, sid):
         """A perfect detector whose counting mode is switched in place between
         uses, on outputs that bunch photons."""
@@ -176,10 +222,23 @@ class ConsumerClient(Client):
             return {"op": "quick_n_outputs", "s": sid, "n": N, "seed": self.seed()}
         q = [{"op": "new_postsel", "kind": "rules",
               "rules": [[[m0], sorted(set(r.sample([0, 1, 2], 2)))]], "out": ref}]
+        multi = r.random() < 0.4
+        if multi:
+            q[0]["multi"] = True
+            q[0]["rules"] = [[[m0], [0, 1, 2]]]
         if self.kind == "qs":
             q.append({"op": "cons_set", "kind": "qs", "s": sid,
                       "attr": "post_select", "ref": ref})
         q.append(use())
+        if multi:
+            # several rules per mode are allowed: tighten the rule on a mode
+            # that already carries one, twice, between uses
+            for ns in r.sample([[0, 1], [1, 2], [0], [1], [0, 2]], 2):
+                q.append({"op": "ps_add", "ps": ref, "modes": [m0], "n": ns})
+                q.append(use())
+            self.queue = q
+            w.stats["intent:postsel_session_multi"] += 1
+            return self.queued()
         # a refused addition: the mode already has a rule
         q.append({"op": "ps_add", "ps": ref,
                   "modes": [m0] if r.random() < 0.5 else sorted([m0, r.choice(others)]),
@@ -223,17 +282,19 @@ class ConsumerClient(Client):
         photon, observed through threshold and counting detectors with both
         N-sample methods."""
         r, w = self.rng, self.w
-        n = r.randint(3, 4)
+        n = r.choice([3, 4, 4])
         cid, did = w.new_id("c"), w.new_id("det")
         hi, ho = r.randrange(n), r.randrange(n)
         st = [0] * (n - 1)
         for _ in range(2):
             st[r.randrange(n - 1)] += 1
-        q = [{"op": "new_unitary", "n": n, "seed": r.randrange(1 << 30),
+        useed, hn = r.randrange(1 << 30), r.choice([1, 1, 0, 2])
+        q = [{"op": "new_unitary", "n": n, "seed": useed,
               "kind": "haar", "out": cid},
-             {"op": "herald", "c": cid, "n": r.choice([1, 1, 0, 2]), "i": hi,
-              "o": ho},
-             {"op": "new_detector", "out": did, "eff": 1, "p_dark": 0,
+             {"op": "herald", "c": cid, "n": hn, "i": hi, "o": ho},
+             {"op": "new_detector", "out": did,
+              "eff": r.choice([1, 1, 1, 0.7, 0.4]),
+              "p_dark": r.choice([0, 0, 0, 0.05]),
               "pnr": r.random() < 0.3},
              {"op": "cons_set", "kind": "sam", "s": sid, "attr": "circuit",
               "ref": cid, "ref_c": cid},
@@ -242,13 +303,39 @@ class ConsumerClient(Client):
              {"op": "cons_set", "kind": "sam", "s": sid, "attr": "detector",
               "ref": did},
              {"op": "sample_n_outputs", "s": sid, "n": 20000,
-              "seed": self.seed()},
+              "seed": self.seed(), "md": r.choice([0, 0, 1, 2])},
              {"op": "sample_n_inputs", "s": sid, "n": 20000,
-              "seed": self.seed()}]
+              "seed": self.seed(), "md": r.choice([0, 0, 1, 2])},
+             # the same boundary seed twice, another client drawing in between
+             {"op": "sample_n_inputs", "s": sid, "n": 200,
+              "seed": r.choice([0, 0, 1, 2**32 - 1]),
+              "twice": [["draw", r.randint(1, 5)]]}]
         if r.random() < 0.5:
             q.insert(2, {"op": "bs", "c": cid, "m1": hi,
                          "m2": (hi + 1) % n, "r": round(r.uniform(0.2, 0.8), 3),
                          "loss": r.choice([0, 0, 0.2])})
+        if r.random() < 0.5:
+            # the same transformation with the herald read out on another
+            # mode, given to the same sampler afterwards
+            c2 = w.new_id("c")
+            ho2 = r.choice([m for m in range(n) if m != ho])
+            q += [{"op": "new_unitary", "n": n, "seed": useed, "kind": "haar",
+                   "out": c2},
+                  {"op": "herald", "c": c2, "n": hn, "i": hi, "o": ho2},
+                  {"op": "cons_set", "kind": "sam", "s": sid, "attr": "circuit",
+                   "ref": c2, "ref_c": c2},
+                  {"op": r.choice(["sample_n_inputs", "sample_n_outputs"]),
+                   "s": sid, "n": 20000, "seed": self.seed()}]
+        elif n == 4 and r.random() < 0.8:
+            # a second herald, declared after the first on a lower / higher
+            # mode: declaration order and mode order disagree half of the time
+            i2 = r.choice([m for m in range(n) if m != hi])
+            o2 = r.choice([m for m in range(n) if m != ho])
+            q.insert(2, {"op": "herald", "c": cid, "n": r.choice([0, 1]),
+                         "i": i2, "o": o2})
+            for o in q:
+                if o["op"] == "cons_set" and o.get("attr") == "input_state":
+                    o["value"] = st[:n - 2] if sum(st[:n - 2]) else [1, 0]
         self.queue = q
         w.stats["intent:herald_session"] += 1
         return self.queued()
@@ -433,6 +520,8 @@ class SamplerUser(ConsumerClient):
             return self.detector_toggle(sid)
         if r.random() < 0.03:
             return self.postsel_session(sid)
+        if r.random() < 0.03:
+            return self.call_order_session(sid)
         k = r.choice(["read", "read", "sample", "sample_n", "sample_n",
                       "sample_o", "circuit", "circuit", "state", "source",
                       "src_edit", "src_edit", "detector", "det_edit", "backend",
@@ -665,6 +754,8 @@ class QuickUser(ConsumerClient):
             return self.postsel_session(sid)
         if r.random() < 0.03:
             return self.predicate_session(sid)
+        if r.random() < 0.03:
+            return self.call_order_session(sid)
         k = r.choice(["read", "read", "sample", "sample", "sample_o",
                       "sample_o", "circuit", "circuit", "state", "pnr",
                       "ps", "ps_add", "ps_add", "edit_circuit", "edit_circuit",
